@@ -687,6 +687,23 @@ pub fn decode_bytes(file: &[u8]) -> R<Decoded> {
     Ok(Decoded { k, min_match, segment_size, samples, stats, directory })
 }
 
+/// Byte spans [start, end) of every part (metadata integer + data) and the start of the footer
+pub fn part_spans(file: &[u8]) -> R<(Vec<(usize, usize)>, usize)> {
+    let streams = parse_directory(file)?;
+    let flen = u64::from_le_bytes(file[file.len() - 8..].try_into().unwrap()) as usize;
+    let fstart = file.len() - 8 - flen;
+    let mut v = Vec::new();
+    for s in &streams {
+        for p in &s.parts {
+            let mut pos = p.meta_off;
+            let _ = lp_int(file, &mut pos)?;
+            v.push((p.meta_off, pos + p.size));
+        }
+    }
+    v.sort();
+    Ok((v, fstart))
+}
+
 pub fn decode_file(path: &str) -> R<Decoded> {
     let file = std::fs::read(path).map_err(|e| format!("io: {}", e))?;
     decode_bytes(&file)
